@@ -201,9 +201,11 @@ class Classifier:
             lim = ty_limit(tystr) if tystr else None
             desc = "%s<%s>(%s)" % (kind, tystr, ", ".join(ops))
             if op in ("Add", "Mul", "Shl") and lim:
-                a, b = self.bounds.ub(ops[0]), self.bounds.ub(ops[1])
+                from bounds import MirBounds
+                mb = MirBounds(self.ctx, f)
+                a, b = mb.operand(s["ops"][0]), mb.operand(s["ops"][1])
                 if a is not None and b is not None:
-                    v = a + b if op == "Add" else a * b
+                    v = a + b if op == "Add" else (a * b if op == "Mul" else (a << min(b, 70)))
                     if v < lim:
                         auto = ("interval", "operand bounds %d %s %d stay below 2^%d" % (a, op, b, lim.bit_length() - 1))
             if op == "Sub":
